@@ -121,13 +121,13 @@ def make_cases(tr):
 
 def script_fn(c, B, s):
     conf = ("[snoopy]\nmessage_format = \"M%d\"\noutput = file:%s\nfilter_chain=\"%s\"\n" % (c["id"], B.logf, c["text"])).encode()
-    s.fork(c["id"])
+    new = B.begin_case(s, c, key=c["uid"])          # cases with the same uid share a process in groups of 1..8
+    if new and c["uid"]:
+        s.raw("uid %d %d %d" % (c["uid"], c["uid"], c["uid"]))
     s.conf(conf)
     s.raw("stdin pty" if c["tty"] else "stdin pipe")
-    if c["uid"]:
-        s.raw("uid %d %d %d" % (c["uid"], c["uid"], c["uid"]))
     s.call(c["id"], "execve", b"/bin/x%d" % c["id"], [b"x"], [b"E=1"], -1, 2)
-    s.endfork()
+    B.end_case(s, c)
 
 
 def check_fn(c, evs, B):
@@ -187,7 +187,7 @@ def main():
                 F.violation("C07:order-or-repetition-changes-decision", "chains with the same elements %r decide differently: %r" % (key, sorted(outs)[:4]),
                             dict(elements=key, uid=uid, tty=tty, outcomes=sorted(outs)[:10]))
     tot["metamorphic_groups_with_several_chains"] = nmeta
-    if tot.get("log", 0) == 0 or tot.get("drop", 0) == 0:
+    if (tot.get("log", 0) == 0 or tot.get("drop", 0) == 0) and F.n_unlisted() == 0:
         raise Harness("did not observe both decisions: %s" % tot)
     rc = F.report()
     write_evidence(PROP, "exploration", tr, dict(
